@@ -81,9 +81,17 @@ def affine_entry(lin):
 
 def main():
     chk = Check('C05')
+    tasks = build(chk, os.environ.get('VERIF_ONLY', ''))
+    chk.run_tasks(tasks)
+    chk.discharge()
+    chk.finish()
+
+
+def build(chk, only=''):
+    """append this check's tasks (restricted to the groups named in `only`) to a task list; also used by the checks that
+    depend on this one's contracts (common.include_dependency)"""
     prog = load_prog()
     gl = load_globals(prog)
-    only = os.environ.get('VERIF_ONLY', '')
     chk.summaries.update(GA.SUMMARY)
     chk.summaries['addMixed'] = 'P + (x2,y2,1) for a non-identity affine addend: discharged by C03 formula/addMixed + law'
     tasks = []
@@ -383,9 +391,7 @@ def main():
         chk.outside.append('coordinate level: more than 3 simultaneously symbolic windows; byte windows that are non-zero multiples of 31 in the vartime routine '
                            '(their toy table entry would be the identity, which an affine table cannot hold; no such entry exists on secp256k1)')
 
-    chk.run_tasks(tasks)
-    chk.discharge()
-    chk.finish()
+    return tasks
 
 
 def TC_SUMMARY():
